@@ -71,6 +71,14 @@ type Conn struct {
 
 	Local, Remote net.Addr
 
+	// NonAtomic makes a Write call visible in chunks of ChunkSize bytes without
+	// holding the transport's write lock in between: concurrent Write calls
+	// interleave at chunk granularity (a transport weaker than a kernel socket;
+	// callers that need whole messages must serialise their writes themselves).
+	NonAtomic bool
+	ChunkSize int
+	raw       []byte
+
 	lateWrites int // Write calls after Close
 	ReadCalls  int
 	ReadBytes  int
@@ -162,7 +170,46 @@ func (c *Conn) Pending() (bytes int, blockedReaders int) {
 	return bytes, c.readers
 }
 
+func (c *Conn) writeNonAtomic(b []byte) (int, error) {
+	t0 := time.Now()
+	c.mu.Lock()
+	if c.closed {
+		c.lateWrites++
+		c.mu.Unlock()
+		return 0, ErrClosed
+	}
+	seq := c.wseq
+	c.wseq++
+	c.mu.Unlock()
+	chunk := c.ChunkSize
+	if chunk <= 0 {
+		chunk = 256
+	}
+	for off := 0; off < len(b); off += chunk {
+		end := off + chunk
+		if end > len(b) {
+			end = len(b)
+		}
+		c.mu.Lock()
+		c.raw = append(c.raw, b[off:end]...)
+		c.mu.Unlock()
+		runtime.Gosched()
+		runtime.Gosched()
+	}
+	rec := WriteRec{Seq: seq, T0: t0, T1: time.Now(), Data: append([]byte(nil), b...), Asked: len(b), Stall: -1}
+	c.mu.Lock()
+	c.wlog = append(c.wlog, rec)
+	c.mu.Unlock()
+	if c.OnWrite != nil {
+		c.OnWrite(rec)
+	}
+	return len(b), nil
+}
+
 func (c *Conn) Write(b []byte) (int, error) {
+	if c.NonAtomic {
+		return c.writeNonAtomic(b)
+	}
 	t0 := time.Now()
 	c.wmu.Lock()
 	defer c.wmu.Unlock()
@@ -238,6 +285,9 @@ func (c *Conn) Writes() []WriteRec {
 func (c *Conn) Written() []byte {
 	c.mu.Lock()
 	defer c.mu.Unlock()
+	if c.NonAtomic {
+		return append([]byte(nil), c.raw...)
+	}
 	var b []byte
 	for _, w := range c.wlog {
 		b = append(b, w.Data...)
